@@ -39,6 +39,7 @@ a(r'minidump::read_cstring_utf8\|assert:overflow:Sub\|offset 1', 'the loop only 
 a(r'minidump::read_cstring_utf8\|call:index:index', 'initial_offset <= offset - 1 < bytes.len(): at least one byte was read past initial_offset and every read succeeded')
 a(r'::memory_range\|assert:overflow:Sub\|val 1', 'val = checked_add(base, size)? with size != 0 (early return on size == 0), so val >= 1', 'C08.2')
 a(r'::memory_range\|call:range_new:new\|.* \(Sub val 1\)', 'end = base + size - 1 >= base because size >= 1 and the checked_add did not overflow', 'C08.2')
+a(r'::memory_range\|call:range_new:new\|\S+ val$', 'end = checked_add(base, size - 1)? with size != 0 (early return on size == 0): end >= base and the addition did not overflow', 'C08.2')
 a(r'MinidumpLinuxMapInfo::<\'_>::memory_range\|call:range_new:new', 'dominated by the early return when address.0 > address.1', 'C08.2')
 a(r'minidump::read_stream_list\|assert:overflow:Sub\|\(core::slice::len bytes\) counted_size', 'counted_size is the Ok payload of ensure_count_in_bound(bytes, ..), which checks counted_size <= bytes.len()', 'C01.3')
 a(r'minidump::read_stream_list\|assert:overflow:Add\|offset 4', 'offset is a small header offset (4) set by gread of one u32')
